@@ -44,6 +44,8 @@ LED_OPS = [
     _op("blink", 7), _op("blink", 3, times=2), _op("blink", 0, times=1), _op("blink", 5, 3),
     _op("fade_in", 100, 3), _op("fade_in", step=60, delay_ms=0), _op("fade_in", 300, 2), _op("fade_in"),
     _op("fade_out", 100, 3), _op("fade_out", step=60, delay_ms=1), _op("fade_out", 255, 4),
+    _op("set_brightness", "{n}.get_brightness() // 2"), _op("blink", "{n}.get_brightness() // 16", times=2), _op("fade_in", 100, "{n}.get_brightness() // 64"),
+    _op("set_brightness", "255 - {n}.get_brightness()"),
 ]
 LED_GETTERS = ["{n}.get_state()", "{n}.get_brightness()"]
 
@@ -53,6 +55,8 @@ RGB_OPS = [
     _op("fade", 255, 0, 0, 10, 3), _op("fade", 10, 20, 30, duration_ms=9, steps=3), _op("fade", 0, 0, 0, 0, 5), _op("fade", 7, 200, 100, 20, 5),
     _op("fade", 50, 60, 70, 6, 1), _op("fade", 300, 0, -20, 6, 3, clamp=[255, 0, 0, 6, 3]),
     _op("blink", 1, 2, 3, 2, 4), _op("blink", 255, 0, 255, times=1, delay_ms=0), _op("blink", 9, 9, 9),
+    # partially specified colours: the omitted components take the signature defaults
+    _op("on", 10), _op("on", 10, 20), _op("on", blue=5), _op("on", green=7, red=3), _op("on", 0), _op("on", 0, 0),
 ]
 RGB_GETTERS: List[str] = []
 
@@ -81,6 +85,9 @@ MOTOR_OPS = [
     _op("stop"), _op("coast"), _op("invert"),
     _op("ramp", -1, 40), _op("ramp", 0.5, 0), _op("ramp", 0, 20), _op("ramp", 3, 20, clamp=[1, 20]),
     _op("run_for", 30, 0.5), _op("run_for", 0, -1), _op("run_for", 12, 2, clamp=[12, 1]),
+    # arguments that read the motor's own state: evaluated once, before the call changes that state
+    _op("run_for", "40 * {n}.get_speed()", -1.0), _op("run_for", "20 + 20 * {n}.get_applied_speed()", "0 - {n}.get_speed()"),
+    _op("set_speed", "0 - {n}.get_speed()"), _op("ramp", "{n}.get_speed() * -1", 20), _op("ramp", 1, "40 * {n}.get_speed()"), _op("backward", "{n}.get_speed() / 2"),
 ]
 MOTOR_GETTERS = ["{n}.get_speed()", "{n}.get_applied_speed()", "{n}.is_inverted()", "{n}.get_mode()"]
 
@@ -115,6 +122,8 @@ def render_op(name: str, op, mode: str, feed: List[int], pre: List[str]) -> str:
         name = op[4]
 
     def val(v):
+        if isinstance(v, str):
+            return v.replace("{n}", name)  # an expression over the device's own state, evaluated at the call
         if mode == "lit":
             return _fmt(v)
         var = f"v{len(feed)}"
